@@ -13,6 +13,8 @@ PROPS = [f"C{n:02d}" for n in range(1, 21)]
 src = next((a.split("=")[1] for a in sys.argv if a.startswith("--src=")), "/tmp/mut/out")
 jobs = int(sys.argv[sys.argv.index("-j") + 1]) if "-j" in sys.argv else 12
 rescan = "--rescan" in sys.argv
+dry = "--dry" in sys.argv          # only print which checks fire; ignore verify.json; save nothing
+tag = next((a.split("=")[1] for a in sys.argv if a.startswith("--tag=")), "")   # e.g. r2 -> seeded/C01-r2mut1
 
 def one(d):
     patch = os.path.join(d, "patch.diff")
@@ -49,20 +51,31 @@ else:
         prop = os.path.basename(os.path.dirname(d))
         vf = os.path.join(os.path.dirname(d), "verify.json")
         ver = json.load(open(vf)).get(os.path.basename(d), {}) if os.path.exists(vf) else {}
-        if not ver.get("ok"):
+        if not os.path.isdir(d) or not os.path.exists(os.path.join(d, "patch.diff")):
+            continue
+        if not ver.get("ok") and not dry:
             print("skip (not confirmed):", d)
             continue
         dirs.append(d)
 matrix = {}
 with cf.ProcessPoolExecutor(jobs) as ex:
     for d, res in ex.map(one, dirs):
+        if dry:
+            prop = os.path.basename(os.path.dirname(d))
+            if "error" in res:
+                print(d, res)
+                continue
+            own = res[prop]
+            print(f"{prop}/{os.path.basename(d)} own={ {0: 'MISSED', 1: 'caught', 2: 'ERR'}[own['rc']]} caught_by={[p for p in PROPS if res[p]['rc'] == 1]} "
+                  f"err={[p for p in PROPS if res[p]['rc'] == 2]} :: {own.get('first', '')[:150]}")
+            continue
         if rescan:
             out = d
             meta = json.load(open(os.path.join(out, "meta.json")))
             sid = os.path.basename(d)
         else:
             prop = os.path.basename(os.path.dirname(d))
-            sid = f"{prop}-{os.path.basename(d)}"
+            sid = f"{prop}-{tag}{os.path.basename(d)}"
             out = os.path.join(VERIF, "seeded", sid)
             os.makedirs(out, exist_ok=True)
             shutil.copy(os.path.join(d, "patch.diff"), out)
@@ -95,4 +108,8 @@ with cf.ProcessPoolExecutor(jobs) as ex:
         matrix[sid] = {"property": meta["property"], "caught_by": meta.get("caught_by"), "analysis_error_in": meta.get("analysis_error_in"),
                        "own": meta.get("own_property_verdict")}
         print(sid, meta.get("own_property_verdict"), meta.get("caught_by"), meta.get("analysis_error_in"))
-json.dump(matrix, open(os.path.join(VERIF, "seeded", "MATRIX.json"), "w"), indent=1, sort_keys=True)
+if not dry:
+    mp = os.path.join(VERIF, "seeded", "MATRIX.json")
+    old = json.load(open(mp)) if os.path.exists(mp) and not rescan else {}
+    old.update(matrix)
+    json.dump(old, open(mp, "w"), indent=1, sort_keys=True)
